@@ -44,7 +44,7 @@ meta["baseline_ok"] = r3.returncode == 0
 # 4. our checks
 caught = {}
 for pid in [prop] + extra:
-    env = dict(os.environ, VERIF_REPO=wt, VERIF_TARGET="/tmp/seed-target", VERIF_OUT="/tmp/seed-out-" + name, VERIF_WORK="/tmp/seed-work-" + name)
+    env = dict(os.environ, VERIF_REPO=wt, VERIF_TARGET="/tmp/seed-target-" + name, VERIF_OUT="/tmp/seed-out-" + name, VERIF_WORK="/tmp/seed-work-" + name)
     t0 = time.time()
     r = subprocess.run(["/verif/check", pid, "--tier", "quick"], capture_output=True, text=True, env=env, cwd="/verif")
     viol = [l for l in r.stdout.splitlines() if l.startswith("VIOLATION")]
@@ -52,6 +52,7 @@ for pid in [prop] + extra:
 meta["our_quick_checks"] = caught
 meta["caught_by"] = [p for p, c in caught.items() if c["exit"] == 1]
 shutil.rmtree("/tmp/seed-out-" + name, ignore_errors=True)
+shutil.rmtree("/tmp/seed-target-" + name, ignore_errors=True)
 shutil.rmtree("/tmp/seed-work-" + name, ignore_errors=True)
 shutil.copyfile("/tmp/seed-%s.diff" % name, os.path.join(dst, "patch.diff"))
 for f in os.listdir(seed):
